@@ -288,7 +288,7 @@ func C01GenFieldCase(r *rand.Rand, profile string) *C01FieldCase {
 	case 0:
 		tc.HasBody, tc.CL = true, 0
 	case 1:
-		tc.HasBody, tc.CL = true, int64(1+r.Intn(100000))
+		tc.HasBody, tc.CL = true, int64(Pick(r, []int{1, 1, 2, 3, 255, 4096, 1 + r.Intn(100000), 1 + r.Intn(100000)}))
 	case 2:
 		tc.HasBody, tc.CL = true, -1
 	case 3:
